@@ -5,6 +5,7 @@ import (
 	"crypto/sha256"
 	"fmt"
 	"sync"
+	"time"
 
 	"github.com/godaddy/asherah/go/appencryption"
 )
@@ -23,6 +24,7 @@ func Hash8(b []byte) H8 {
 // KMSCall is one call to the key management service.
 type KMSCall struct {
 	Seq   int64
+	At    time.Time
 	Idx   int
 	Op    string // encrypt | decrypt
 	Plain H8     // fingerprint of the plaintext key (input of encrypt, output of decrypt)
@@ -61,7 +63,7 @@ func (k *KMS) begin(op string) (int, bool) {
 // EncryptKey implements appencryption.KeyManagementService.
 func (k *KMS) EncryptKey(ctx context.Context, key []byte) ([]byte, error) {
 	i, fault := k.begin("encrypt")
-	c := KMSCall{Seq: Seq.Add(1), Idx: i, Op: "encrypt", Plain: Hash8(key), Full: sha256.Sum256(key), Fault: fault}
+	c := KMSCall{Seq: Seq.Add(1), At: time.Now(), Idx: i, Op: "encrypt", Plain: Hash8(key), Full: sha256.Sum256(key), Fault: fault}
 	var (
 		out []byte
 		err error
@@ -84,7 +86,7 @@ func (k *KMS) EncryptKey(ctx context.Context, key []byte) ([]byte, error) {
 // DecryptKey implements appencryption.KeyManagementService.
 func (k *KMS) DecryptKey(ctx context.Context, wrapped []byte) ([]byte, error) {
 	i, fault := k.begin("decrypt")
-	c := KMSCall{Seq: Seq.Add(1), Idx: i, Op: "decrypt", Fault: fault, Wrapped: append([]byte(nil), wrapped...)}
+	c := KMSCall{Seq: Seq.Add(1), At: time.Now(), Idx: i, Op: "decrypt", Fault: fault, Wrapped: append([]byte(nil), wrapped...)}
 	var (
 		out []byte
 		err error
